@@ -75,6 +75,7 @@ class Conv:
                 self.fwd[name[:-len("_to_proto")]] = fn
             elif name.startswith("proto_to_"):
                 self.rev[name[len("proto_to_"):]] = fn
+        self.excluded_by = {}  # id(forward statement) -> attributes whose guard must have failed for the statement to run
         self.ptypes_fwd = {}   # kind -> set of proto type names of the object being filled
         self.ptypes_rev = {}   # kind -> set of proto type names of the `proto` parameter
         self._types()
@@ -140,11 +141,13 @@ class Conv:
             found = [n.attr for n in ast.walk(e) if isinstance(n, ast.Attribute) and isinstance(n.value, ast.Name) and n.value.id == A]
             return found[0] if len(set(found)) == 1 else None
 
-        def walk(stmts, guard):
+        def walk(stmts, guard, neg=()):
             for s in stmts:
+                if isinstance(s, (ast.Assign, ast.Expr, ast.Return)):
+                    self.excluded_by[id(s)] = neg
                 if isinstance(s, ast.If):
-                    walk(s.body, attr_of(s.test))
-                    walk(s.orelse, guard)
+                    walk(s.body, attr_of(s.test), neg)
+                    walk(s.orelse, guard, neg + ((attr_of(s.test) or unparse(s.test)),))
                 elif isinstance(s, ast.Assign) and len(s.targets) == 1:
                     t = s.targets[0]
                     if isinstance(t, ast.Subscript):
@@ -276,6 +279,9 @@ def rule_bij_desc_has(ctx, cv):
             ctx.check("C10.desc", not missing, w, stmt, "field %r does not exist in %s (assignment raises AttributeError whenever it runs)" % (p, ", ".join(missing)), "field exists in %s" % ", ".join(sorted(ftypes)))
             if guard is not None and a is not None:
                 ctx.check("C10.has", guard == a, w, stmt, "the guard tests attribute %r but the statement copies %r" % (guard, a), "guard and copy use the same attribute")
+            others = [x for x in cv.excluded_by.get(id(stmt), ()) if x != a]
+            if others:
+                ctx.violate("C10.has", w, stmt, "attribute %r is only copied when %s %s absent (else / elif branch): a payload that carries both loses %r" % (a, ", ".join(repr(o) for o in others[:3]), "is" if len(others) == 1 else "are", a))
         # ---- C10.desc / C10.has (reverse)
         for (slot, e, reads, has, chained, nested) in rargs:
             w = where(CONV, "AttributesConverter.proto_to_%s" % kind, getattr(e, "lineno", rfn.lineno))
